@@ -15,6 +15,24 @@ import (
 // Filter is a script used as a filter.
 type Filter struct {
 	Script
+	// root is the document a $ in the script refers to when the filter is
+	// the last fragment of a Remove, rooted says it is set.
+	root   any
+	rooted bool
+}
+
+// match is Match unless the filter has been given a root.
+func (f *Filter) match(v any) bool {
+	if f.rooted {
+		return f.matchRoot(v, f.root)
+	}
+	return f.Match(v)
+}
+
+// withRoot returns a copy of the filter that evaluates a $ in the script
+// against root.
+func (f *Filter) withRoot(root any) *Filter {
+	return &Filter{Script: f.Script, root: root, rooted: true}
 }
 
 // NewFilter creates a new Filter.
@@ -63,7 +81,7 @@ func (f *Filter) remove(value any) (out any, changed bool) {
 	case []any:
 		ns := make([]any, 0, len(tv))
 		for _, v := range tv {
-			if f.Match(v) {
+			if f.match(v) {
 				changed = true
 			} else {
 				ns = append(ns, v)
@@ -74,7 +92,7 @@ func (f *Filter) remove(value any) (out any, changed bool) {
 		}
 	case map[string]any:
 		for k, v := range tv {
-			if f.Match(v) {
+			if f.match(v) {
 				delete(tv, k)
 				changed = true
 			}
@@ -82,7 +100,7 @@ func (f *Filter) remove(value any) (out any, changed bool) {
 	case gen.Array:
 		ns := make(gen.Array, 0, len(tv))
 		for _, v := range tv {
-			if f.Match(v) {
+			if f.match(v) {
 				changed = true
 			} else {
 				ns = append(ns, v)
@@ -93,7 +111,7 @@ func (f *Filter) remove(value any) (out any, changed bool) {
 		}
 	case gen.Object:
 		for k, v := range tv {
-			if f.Match(v) {
+			if f.match(v) {
 				delete(tv, k)
 				changed = true
 			}
@@ -102,7 +120,7 @@ func (f *Filter) remove(value any) (out any, changed bool) {
 		size := tv.Size()
 		for i := (size - 1); i >= 0; i-- {
 			v := tv.ValueAtIndex(i)
-			if f.Match(v) {
+			if f.match(v) {
 				tv.RemoveValueAtIndex(i)
 				changed = true
 			}
@@ -111,7 +129,7 @@ func (f *Filter) remove(value any) (out any, changed bool) {
 		keys := tv.Keys()
 		for _, key := range keys {
 			v, _ := tv.ValueForKey(key)
-			if f.Match(v) {
+			if f.match(v) {
 				tv.RemoveValueForKey(key)
 				changed = true
 			}
@@ -127,7 +145,7 @@ func (f *Filter) remove(value any) (out any, changed bool) {
 			cnt := rv.Len()
 			nc := 0
 			for i := 0; i < cnt; i++ {
-				if f.Match(rv.Index(i).Interface()) {
+				if f.match(rv.Index(i).Interface()) {
 					changed = true
 				} else {
 					nc++
@@ -139,7 +157,7 @@ func (f *Filter) remove(value any) (out any, changed bool) {
 				ns := reflect.MakeSlice(rv.Type(), nc, nc)
 				for i := 0; i < cnt; i++ {
 					iv := rv.Index(i)
-					if f.Match(iv.Interface()) {
+					if f.match(iv.Interface()) {
 						changed = true
 					} else {
 						ns.Index(ni).Set(iv)
@@ -152,7 +170,7 @@ func (f *Filter) remove(value any) (out any, changed bool) {
 			keys := rv.MapKeys()
 			for _, k := range keys {
 				mv := rv.MapIndex(k)
-				if f.Match(mv.Interface()) {
+				if f.match(mv.Interface()) {
 					rv.SetMapIndex(k, reflect.Value{})
 					changed = true
 				}
@@ -168,7 +186,7 @@ func (f *Filter) removeOne(value any) (out any, changed bool) {
 	case []any:
 		ns := make([]any, 0, len(tv))
 		for _, v := range tv {
-			if !changed && f.Match(v) {
+			if !changed && f.match(v) {
 				changed = true
 			} else {
 				ns = append(ns, v)
@@ -185,7 +203,7 @@ func (f *Filter) removeOne(value any) (out any, changed bool) {
 			}
 			sort.Strings(keys)
 			for _, k := range keys {
-				if f.Match(tv[k]) {
+				if f.match(tv[k]) {
 					delete(tv, k)
 					changed = true
 					break
@@ -195,7 +213,7 @@ func (f *Filter) removeOne(value any) (out any, changed bool) {
 	case gen.Array:
 		ns := make(gen.Array, 0, len(tv))
 		for _, v := range tv {
-			if !changed && f.Match(v) {
+			if !changed && f.match(v) {
 				changed = true
 			} else {
 				ns = append(ns, v)
@@ -212,7 +230,7 @@ func (f *Filter) removeOne(value any) (out any, changed bool) {
 			}
 			sort.Strings(keys)
 			for _, k := range keys {
-				if f.Match(tv[k]) {
+				if f.match(tv[k]) {
 					delete(tv, k)
 					changed = true
 					break
@@ -223,7 +241,7 @@ func (f *Filter) removeOne(value any) (out any, changed bool) {
 		size := tv.Size()
 		for i := 0; i < size; i++ {
 			v := tv.ValueAtIndex(i)
-			if f.Match(v) {
+			if f.match(v) {
 				tv.RemoveValueAtIndex(i)
 				changed = true
 				break
@@ -234,7 +252,7 @@ func (f *Filter) removeOne(value any) (out any, changed bool) {
 		sort.Strings(keys)
 		for _, key := range keys {
 			v, _ := tv.ValueForKey(key)
-			if f.Match(v) {
+			if f.match(v) {
 				tv.RemoveValueForKey(key)
 				changed = true
 				break
@@ -251,7 +269,7 @@ func (f *Filter) removeOne(value any) (out any, changed bool) {
 			cnt := rv.Len()
 			nc := 0
 			for i := 0; i < cnt; i++ {
-				if !changed && f.Match(rv.Index(i).Interface()) {
+				if !changed && f.match(rv.Index(i).Interface()) {
 					changed = true
 				} else {
 					nc++
@@ -263,7 +281,7 @@ func (f *Filter) removeOne(value any) (out any, changed bool) {
 				ns := reflect.MakeSlice(rv.Type(), nc, nc)
 				for i := 0; i < cnt; i++ {
 					iv := rv.Index(i)
-					if !changed && f.Match(iv.Interface()) {
+					if !changed && f.match(iv.Interface()) {
 						changed = true
 					} else {
 						ns.Index(ni).Set(iv)
@@ -279,7 +297,7 @@ func (f *Filter) removeOne(value any) (out any, changed bool) {
 			})
 			for _, k := range keys {
 				mv := rv.MapIndex(k)
-				if f.Match(mv.Interface()) {
+				if f.match(mv.Interface()) {
 					rv.SetMapIndex(k, reflect.Value{})
 					changed = true
 					break
